@@ -126,11 +126,18 @@ theorem simplifyRaw_val (ρ : Env) (a : Arg) (c : Bool) (a' : Arg) (v : Int)
     simp only [simplifyRaw] at he
     split at he
     · rename_i l r
-      simp only [Res.ok.injEq, Prod.mk.injEq] at he
-      obtain ⟨_, rfl⟩ := he
       obtain ⟨p, q, hl, hr, ho⟩ := valZ_bin hx
       simp only [opZ, Option.some.injEq] at ho
-      rw [valZ_bin_mk hr hl]; simp only [opZ, Option.some.injEq]; omega
+      have hsw : valZ ρ (.bin .sub r l) = some (-x) := by
+        rw [valZ_bin_mk hr hl]; simp only [opZ, Option.some.injEq]; omega
+      cases hn : neutralizeRaw (.bin .sub r l) with
+      | ok pr =>
+        obtain ⟨c1, y⟩ := pr
+        simp only [hn, Res.ok.injEq, Prod.mk.injEq] at he
+        obtain ⟨_, rfl⟩ := he
+        exact neutralizeRaw_val ρ hn hsw
+      | err e => simp [hn] at he
+      | panic => simp [hn] at he
     · split at he
       · simp at he
       · simp only [Res.ok.injEq, Prod.mk.injEq] at he
